@@ -114,6 +114,10 @@ def gen_set(rnd, n):
         rules[j].match = 'contains("%s") and amount > lim' % w
         rules[k].match = 'contains("%s") and amount > lim and month >= 0' % w
         rules[j].priority = rules[k].priority = None
+    if n >= 2 and rnd.random() < .2:
+        # two blocks under the same [Name] (a merchant's general rule and its special case): they are two rules, ranked each on its own
+        j, k = rnd.sample(range(n), 2)
+        rules[k].name = rules[j].name
     return rf
 
 
@@ -346,6 +350,47 @@ def judge_variable_sequence(rec, rnd):
             return
 
 
+def judge_migrating_run(rec, tmp, rnd):
+    """`rule_mode: most_specific` and rules still in the legacy CSV: the run that migrates them (`tally up --migrate`) already classifies with the migrated
+    rules file - in the configured mode, exactly like every later run."""
+    import json as _json
+    from vt import budget as B
+    root = os.path.join(tmp, 'mig')
+    shutil.rmtree(root, ignore_errors=True)
+    os.makedirs(os.path.join(root, 'config'))
+    os.makedirs(os.path.join(root, 'data'))
+    w = rnd.choice(['COSTCO', 'UBER', 'STAR'])
+    rows = [('%s' % w, 'General %s' % w.title(), 'Shopping', 'Wholesale'), ('%s GAS[amount>5]' % w, '%s Gas' % w.title(), 'Transport', 'Fuel')]
+    if rnd.random() < .5:
+        rows.reverse()
+    mode = rnd.choice(['most_specific', 'most_specific', 'first_match'])
+    with open(os.path.join(root, 'config', 'settings.yaml'), 'w') as f:
+        f.write('year: 2025\nrule_mode: %s\ndata_sources:\n  - name: Card\n    file: data/card.csv\n    format: "{date:%%Y-%%m-%%d},{description},{amount}"\n' % mode)
+    with open(os.path.join(root, 'config', 'merchant_categories.csv'), 'w') as f:
+        f.write('Pattern,Merchant,Category,Subcategory\n' + ''.join(','.join(r) + '\n' for r in rows))
+    with open(os.path.join(root, 'data', 'card.csv'), 'w') as f:
+        f.write('Date,Description,Amount\n2025-01-03,%s GAS #0123,40.20\n' % w)
+    out = []
+    for extra in (['--migrate'], []):
+        p = B.tally(root, 'up', os.path.join(root, 'config'), '--format', 'json', '-v', *extra)
+        rec.count('cli_runs')
+        try:
+            js = B.json_from_stdout(p.stdout)
+            out.append(sorted((m['name'], m['category'], m['subcategory']) for m in js['merchants']))
+        except Exception:
+            out.append('no report (exit %d)' % p.returncode)
+    rec.case()
+    rec.count('migrating_run_checks')
+    specific = ('%s Gas' % w.title(), 'Transport', 'Fuel')
+    want = [specific] if mode == 'most_specific' else [tuple(rows[0][1:])]
+    case = {'kind': 'migrating-run'}
+    if out[0] != out[1]:
+        rec.violation('migrating-run-classifies-differently-from-the-next-run', f'rule_mode {mode}, CSV rows {rows}: `up --migrate` reports {out[0]}, the next `up` reports {out[1]}', case)
+    elif out[1] != want:
+        rec.violation('configured-rule-mode-not-applied-after-migration', f'rule_mode {mode}, CSV rows {rows}: reports {out[1]}, expected {want}', case)
+    shutil.rmtree(root, ignore_errors=True)
+
+
 def judge_rule_mode_setting(rec, tmp, rnd):
     """load_config: rule_mode is validated and handed to the engine; an invalid value falls back to first_match with a warning."""
     from tally.config_loader import load_config
@@ -394,6 +439,8 @@ def run(rec, shard, nshards, t):
         for _ in range((200 if t == 'quick' else 4000) // nshards):
             judge_dominance(rec, rnd, tmp)
             judge_variable_sequence(rec, rnd)
+            if rnd.random() < .06:
+                judge_migrating_run(rec, tmp, rnd)
         for _ in range(2 if t == 'quick' else 10):
             judge_rule_mode_setting(rec, tmp, rnd)
     finally:
@@ -408,6 +455,9 @@ def replay(rec, case):
         if case['kind'] == 'mode':
             for _ in range(5):
                 judge_rule_mode_setting(rec, tmp, rnd)
+        elif case['kind'] == 'migrating-run':
+            for _ in range(6):
+                judge_migrating_run(rec, tmp, rnd)
         elif case['kind'] == 'varseq':
             for _ in range(60):
                 judge_variable_sequence(rec, rnd)
